@@ -248,6 +248,9 @@ func (c *Ctx) allFirstPartyFuncs() []*ssa.Function {
 		if f == nil || seen[f] || f.Blocks == nil {
 			return
 		}
+		if c.skipGenerated && c.fnInGeneratedFile(f) {
+			return
+		}
 		seen[f] = true
 		out = append(out, f)
 		for _, a := range f.AnonFuncs {
@@ -277,4 +280,26 @@ func (c *Ctx) allFirstPartyFuncs() []*ssa.Function {
 		}
 	}
 	return out
+}
+
+// fnInGeneratedFile: the function is declared in a file marked "Code generated ... DO NOT EDIT".
+func (c *Ctx) fnInGeneratedFile(f *ssa.Function) bool {
+	if c.genFiles == nil {
+		c.genFiles = map[string]bool{}
+		for _, pk := range c.P.First {
+			for _, af := range pk.Syntax {
+				if isGenerated(af) {
+					c.genFiles[c.P.Fset.Position(af.Pos()).Filename] = true
+				}
+			}
+		}
+	}
+	pos := f.Pos()
+	if !pos.IsValid() && f.Parent() != nil {
+		pos = f.Parent().Pos()
+	}
+	if !pos.IsValid() {
+		return false
+	}
+	return c.genFiles[c.P.Fset.Position(pos).Filename]
 }
